@@ -199,7 +199,7 @@ def _c16():
     add("c16_gemv_3x2_nnz3", unit="MatrixVectorMultiply::gemv for CscMatrix and Adjoint (_csc_axpby_N/_T)", inst="GF(13)", bounds="3x2 nnz=3 symbolic pattern, all a,b,x,y", oracle="y = a*A*x + b*y and y = a*A'*x + b*y (dense reference), incl. a,b in {0,1,-1} fast paths")
     add("c16_gemv_2x3_nnz4", unit="same", inst="GF(13)", bounds="2x3 nnz=4", oracle="same", tier="thorough")
     add("c16_symv_2x2_nnz3", unit="SymMatrixVectorMultiply::symv (_csc_symv_unsafe, unchecked indexing), MatrixMath::quad_form", inst="GF(13)", bounds="2x2 triu nnz=3", oracle="y = a*sym(A)*x + b*y; quad_form = y' sym(A) x; memory safe")
-    add("c16_symv_3x3_nnz4", unit="same", inst="GF(13)", bounds="3x3 triu nnz=4 symbolic pattern", oracle="same")
+    add("c16_symv_3x3_nnz4", tier="thorough", timeout=3600, unit="same", inst="GF(13)", bounds="3x3 triu nnz=4 symbolic pattern", oracle="same")
     add("c16_scalings_3x2_nnz3", unit="MatrixMathMut::lscale/rscale/lrscale/scale/negate, MatrixMath::col_sums/row_sums", inst="GF(13)", bounds="3x2 nnz=3 symbolic pattern", oracle="entrywise dense definition; pattern unchanged")
     add("c16_scalings_2x3_nnz4", unit="same", inst="GF(13)", bounds="2x3 nnz=4", oracle="same", tier="thorough")
     add("c16_norms_3x3_nnz4", nofloat=True, unit="MatrixMath::col_norms/col_norms_no_reset/col_norms_sym/row_norms", inst="f64, every non-NaN value", bounds="3x3 nnz=4 symbolic pattern", oracle="max |a_ij| per column / row / symmetric column; no_reset accumulates")
@@ -214,9 +214,8 @@ def _c16():
     add("c16_select_rows_3x3", unit="same", inst="i32", bounds="3x3 pattern, all 8 row masks", oracle="same", tier="thorough", timeout=1500)
     add("c16_triplets_2x2_k3", unit="CscMatrix::new_from_triplets (sortperm_by, permute, colcount_to_colptr)", inst="i32", bounds="2x2, 3 triplets, arbitrary coordinates (unsorted, duplicated)", oracle="canonical; dense = sum of triplets; one entry per distinct coordinate", timeout=1500)
     add("c16_triplets_3x2_k4", unit="same", inst="i32", bounds="3x2, 4 triplets", oracle="same", tier="thorough", timeout=3000, mem_gb=24)
-    add("c16_canonicalize_22", unit="CscMatrix::canonicalize (check_dimensions, sort_indices, deduplicate)", inst="i32", bounds="3x2, column counts (2,2), arbitrary row indices", oracle="canonical; dense meaning kept; idempotent", timeout=1500)
-    add("c16_canonicalize_30", unit="same", inst="i32", bounds="3x2, column counts (3,0)", oracle="same", rot=True, timeout=1500)
-    add("c16_from_rows_2x2", unit="From<&[[T;N];M]> for CscMatrix", inst="i32", bounds="2x2 all values in [-2,2]", oracle="canonical, no stored zero, dense meaning")
+    # c16_canonicalize_* (sort_indices + deduplicate: permutation vectors, truncation): even 2 entries in one column did not finish in 25 min - unregistered (outside)
+    # c16_from_rows_2x2 (From<rows>): nested Vec<Vec<T>> collects with value-dependent pushes - out of memory; unregistered (outside)
     add("c16_set_entry_2x3", unit="CscMatrix::set_entry / get_entry (colptr_to_colcount, colcount_to_colptr)", inst="i32", bounds="2x3 pattern with an empty middle... all 6 coordinates, symbolic nonzero value and zero", oracle="canonical kept; only that coordinate changes; zero never allocates", timeout=1500)
     add("c16_set_entry_3x2_emptycol", unit="same", inst="i32", bounds="3x2 pattern with empty last column", oracle="same", rot=True, timeout=1500)
     add("c16_concat_2x2", unit="BlockConcatenate::hcat/vcat/blockdiag/hvcat", inst="GF(13)", bounds="two 2x2 blocks, nnz 2 and 3, symbolic patterns", oracle="canonical; dense block layout", timeout=1500)
@@ -228,7 +227,7 @@ def _c16():
 PROPS["C16"] = {
     "feature": "c16",
     "bounds_note": "shapes up to 3x3 / 4x2, 2-4 stored entries; symbolic canonical patterns for in-place/read-only operations; enumerated patterns with symbolic values where the result is allocated with a data-dependent size",
-    "outside": "larger shapes; floating-point rounding of products/sums (numeric kernels are decided over GF(13): the identity of the computed polynomial, not its rounding); hvcat with more than 2 blocks",
+    "outside": "larger shapes; floating-point rounding of products/sums (numeric kernels are decided over GF(13): the identity of the computed polynomial, not its rounding); hvcat with more than 2 blocks; canonicalize (sort_indices + deduplicate) and From<rows> (nested Vec collects): heap-heavy, did not finish / out of memory - harnesses kept unregistered in c16.rs",
     "assumptions": ["norm harnesses exclude NaN entries"],
     "harnesses": _c16(),
 }
@@ -249,7 +248,8 @@ PROPS["C17"] = {
     "assumptions": [],
     "harnesses": _mk("c17", [
         ("c17_dsu_query_inductive_n8", dict(unit="DisjointSetUnion::{in_same_set,root} (path compression)", inst="usize", bounds="ONE query from an ARBITRARY valid state on 8 elements (rank-increasing forest with subtree size >= 2^rank: the union-by-rank invariant); 8 is the smallest size with a depth-3 tree", oracle="in_same_set(x,y) <=> same true root; compression keeps every root", timeout=1800, mem_gb=20)),
-        ("c17_dsu_union_inductive_n8", dict(unit="DisjointSetUnion::union", inst="usize", bounds="ONE union from an arbitrary valid state on 8 elements", oracle="merges exactly the two components; preserves the invariant (=> histories of any length, by induction)", timeout=2400, mem_gb=24)),
+        ("c17_dsu_union_inductive_n6", dict(unit="DisjointSetUnion::union", inst="usize", bounds="ONE union from an arbitrary valid state on 6 elements (ranks <= 2: a rank-2 set of four and a rank-1 set of two fit)", oracle="merges exactly the two components; preserves the invariant", timeout=2400, mem_gb=24)),
+        ("c17_dsu_union_inductive_n8", dict(tier="thorough", unit="DisjointSetUnion::union", inst="usize", bounds="ONE union from an arbitrary valid state on 8 elements", oracle="merges exactly the two components; preserves the invariant (=> histories of any length, by induction)", timeout=9000, mem_gb=24)),
         ("c17_dsu_n5_u4", dict(unit="DisjointSetUnion::{new,union,in_same_set,root}", inst="usize", bounds="5 elements, any 4 unions from the initial state, any query", oracle="in_same_set <=> connected by the unions made", timeout=1800, mem_gb=20)),
         ("c17_kruskal_n4_a", dict(unit="clique_graph::kruskal (findnz, sortperm_rev, permute, DisjointSetUnion)", inst="isize weights", bounds="4 cliques; edge sets {K4, 4-cycle, path}; symbolic weights 0..5", oracle="edges marked -1 form an acyclic spanning forest connecting exactly the graph's components; others untouched", timeout=1800, mem_gb=20)),
         ("c17_kruskal_n4_b", dict(tier="thorough", unit="same", inst="isize", bounds="4 cliques; edge sets {star, triangle+isolated, two disjoint edges, single edge}", oracle="same", timeout=3000, mem_gb=24)),
@@ -467,15 +467,15 @@ PROPS["C14"] = {
     "harnesses": _mk("c14", [
         ("c14_exp_grad_is_derivative_of_dual_barrier", dict(unit="ExponentialCone::barrier_dual / update_dual_grad_H", inst="Jet<GF(13)>", bounds="all z (z1,z3 != 0), symbolic direction index", oracle="d f*(z)/dz_j == grad[j]", timeout=2400, mem_gb=20)),
         ("c14_exp_hessian_is_derivative_of_grad", dict(unit="ExponentialCone::update_dual_grad_H", inst="Jet<GF(13)>", bounds="all z, symbolic j", oracle="d grad[i]/dz_j == H[i][j] for all i", timeout=2400, mem_gb=20)),
+        ("c14_chol3_is_a_linear_solver", dict(unit="DenseMatrixSym3::cholesky_3x3_explicit_factor / cholesky_3x3_explicit_solve", inst="GF(13)", bounds="all symmetric 3x3 H, all b", oracle="success => H x == b and all leading minors nonzero; failure => a leading minor vanishes", timeout=1800, mem_gb=20)),
+        ("c14_exp_higher_correction_spec", dict(stubs=True, unit="ExponentialCone::higher_correction with the two Cholesky routines replaced by their specification (Cramer's rule; justified by c14_chol3_is_a_linear_solver)", inst="Jet<GF(13)>", bounds="all z, u, v; nonzero leading minors of H", oracle="eta == -1/2 (d/dt H(z+tv)) u with H u = ds", timeout=2400, mem_gb=24)),
+        ("c14_exp_higher_correction_spec_basis", dict(stubs=True, unit="same", inst="Jet<GF(13)>", bounds="all z; u = lambda e_k, v = mu e_j", oracle="same", timeout=2400, mem_gb=24)),
+        ("c14_pow_higher_correction_spec", dict(stubs=True, tier="thorough", unit="PowerCone::higher_correction, Cholesky routines replaced by their specification", inst="Jet<GF(13)>", bounds="all z, alpha, u, v", oracle="same", timeout=3600, mem_gb=24)),
         ("c14_exp_higher_correction_basis", dict(unit="ExponentialCone::higher_correction, DenseMatrixSym3::cholesky_3x3_explicit_{factor,solve}", inst="Jet<GF(13)>", bounds="all z; u = lambda e_k, v = mu e_j (symbolic indices and factors); nonzero leading minors of H", oracle="eta == -1/2 (d/dt H(z+tv)) u with H u = ds", timeout=2400, mem_gb=24)),
         ("c14_pow_higher_correction_basis", dict(tier="thorough", unit="PowerCone::higher_correction", inst="Jet<GF(13)>", bounds="all z, alpha; u = lambda e_k, v = mu e_j", oracle="same", timeout=3600, mem_gb=24)),
-        ("c14_exp_higher_correction_is_third_derivative_p11", dict(tier="thorough", unit="same", inst="Jet<GF(11)>", bounds="same", oracle="same", timeout=2400, mem_gb=24)),
-        ("c14_pow_higher_correction_is_third_derivative_p5", dict(tier="thorough", unit="same", inst="Jet<GF(5)>", bounds="same", oracle="same", timeout=2400, mem_gb=24)),
-        ("c14_exp_higher_correction_is_third_derivative_p7", dict(tier="thorough", unit="ExponentialCone::higher_correction, DenseMatrixSym3::cholesky_3x3_explicit_{factor,solve}", inst="Jet<GF(7)>", bounds="all z, u, v with nonzero leading minors of H", oracle="eta == -1/2 (d/dt H(z+tv)) u with H u = ds", timeout=2400, mem_gb=24)),
         ("c14_exp_higher_correction_is_third_derivative", dict(tier="thorough", unit="same", inst="Jet<GF(13)>", bounds="same", oracle="same", timeout=7200, mem_gb=28)),
         ("c14_pow_grad_is_derivative_of_dual_barrier", dict(unit="PowerCone::barrier_dual / update_dual_grad_H", inst="Jet<GF(13)>", bounds="all z != 0, all alpha", oracle="d f*(z)/dz_j == grad[j]", timeout=2400, mem_gb=20)),
         ("c14_pow_hessian_is_derivative_of_grad", dict(unit="PowerCone::update_dual_grad_H", inst="Jet<GF(13)>", bounds="all z, alpha, j", oracle="d grad[i]/dz_j == H[i][j]", timeout=2400, mem_gb=20)),
-        ("c14_pow_higher_correction_is_third_derivative_p7", dict(tier="thorough", unit="PowerCone::higher_correction", inst="Jet<GF(7)>", bounds="all z, u, v, alpha", oracle="eta == -1/2 (d/dt H(z+tv)) u", timeout=3600, mem_gb=28)),
         ("c14_pow_higher_correction_is_third_derivative", dict(tier="thorough", unit="PowerCone::higher_correction", inst="Jet<GF(13)>", bounds="all z, u, v, alpha", oracle="eta == -1/2 (d/dt H(z+tv)) u", timeout=7200, mem_gb=28)),
         ("c14_dual_scaling_is_mu_times_hessian", dict(unit="Nonsymmetric3DConeUtils::use_dual_scaling, ExponentialCone::get_Hs / mul_Hs", inst="GF(13)", bounds="all H, mu, x", oracle="Hs == mu H; get_Hs / mul_Hs expose Hs", timeout=1200)),
     ]),
